@@ -349,6 +349,8 @@ def model_request(case):
         return optcfglib.plug_request(case)
     if case['path'] == 'conv':
         return optcfglib.conv_request(case)
+    if case['path'] == 'plugcmd':
+        return optcfglib.cmd_request(case)
     req = {'model': 'opt', 'spec': case['spec'], 'env': case['env'], 'ini': case['ini'], 'glob': case['glob'],
            'dodo': case['dodo'], 'argv': case['argv']}
     add_layers(req, case)
@@ -394,6 +396,8 @@ def run_impl(case, workdir):
         return optcfglib.impl_plug(case, workdir)
     if p == 'conv':
         return optcfglib.impl_conv(case)
+    if p == 'plugcmd':
+        return optcfglib.impl_cmd(case, workdir)
     if p == 'parse':
         return optlib.impl_parse(case)
     if p == 'command':
@@ -479,6 +483,8 @@ def judge(case, impl, model, spec):
         return optcfglib.judge_plug(case, impl, model)
     if case['path'] == 'conv':
         return optcfglib.judge_conv(case, impl, model)
+    if case['path'] == 'plugcmd':
+        return optcfglib.judge_cmd(case, impl, model)
     if case.get('klayers'):
         v0, d0 = optcfglib.judge_layers(case, impl, model)
         v1, d1 = judge(dict(case, klayers=None), impl, model, spec)
@@ -629,7 +635,7 @@ def refs_of(asgs, opts):
 
 
 def nontrivial(case, impl):
-    if case['path'] in ('plug', 'conv'):
+    if case['path'] in ('plug', 'conv', 'plugcmd'):
         return True
     r = impl.get('res') or {}
     if 'err' in r:
@@ -802,11 +808,15 @@ def witness_of(case, impl, model, spec, label, note):
 # ------------------------------------------------------------------------------------------------ workers
 
 def account(st, case, impl, model, spec):
-    if case['path'] in ('plug', 'conv'):
+    if case['path'] in ('plug', 'conv', 'plugcmd'):
         st.case({k: v for k, v in case.items() if k not in BLANK_KEYS or k == 'argv'}, True)
         st.traces += 1
         st.count('path:' + case['path'])
-        if case['path'] == 'plug':
+        if case['path'] == 'plugcmd':
+            st.count('plugcmd:first-word=%s,command=%s,class=%s,outcome=%s%s'
+                     % ((case['argv'] or ['-'])[0], model.get('cmd'), (model.get('cls') or ['-'])[0], model.get('pick'),
+                        ',entry-does-not-load' if case.get('broken') else ''))
+        elif case['path'] == 'plug':
             lay = case['layers']
             n_def = sum(1 for l in optcfglib.LAYER3 if lay[l] and case['name'] in [n for n, _ in lay[l]])
             st.count('plug:%s,name-in=%s,defined-in-layers=%d' % (case['cat'], (case.get('cfg_at') or [case['where']])[0] if case['where'] == 'config' else case['where'], n_def))
@@ -1032,6 +1042,8 @@ def run(ctx):
     cfgc = [optcfglib.gen_layers_case(crng, base) for _ in range(150 * n_cfg)] if base is not None else []
     cfgc += [optcfglib.gen_plug_case(crng, core) for _ in range(150 * n_cfg)]
     cfgc += [optcfglib.gen_conv_case(crng) for _ in range(120 * n_cfg)]
+    ccmds = optcfglib.core_commands()
+    cfgc += [optcfglib.gen_cmd_case(crng, ccmds) for _ in range(100 * n_cfg)]
     ctx.count('config-side:cases', len(cfgc))
     cases += cfgc
     small = small_scope_cases(3 if (ctx.tier == 'thorough' or ctx.boost > 1) else 2)
